@@ -136,7 +136,7 @@ def kindOf (r : Row) : Kind :=
     | some m => .file m
     | none => .unknown
   else if (callee = "store.fs.TempFile" || callee = "store.fs.WriteFile") && fn = "KeyStore.WriteKeyFile" && arg = "mode" then .param "WriteKeyFile.mode"
-  else if callee = "store.storage.WriteFile" && fn = "KeyBackuper.Import" && arg = "filePermission" then .param "Import.filePermission"
+  else if (callee = "store.storage.WriteFile" || callee = "store.storage.TempFile") && fn = "KeyBackuper.Import" && arg = "filePermission" then .param "Import.filePermission"
   else .unknown
 
 /-- functions that may create a world-readable (0644) file: they write public keys or the constant
